@@ -1353,6 +1353,14 @@ func (e *Env) callExpr(x *Expr) Val {
 			e.fail("distinct() needs two reference values")
 		}
 		return Val{T: fmt.Sprintf("(not (= %s %s))", a.T, b.T), Ty: boolT}
+	case "head":
+		if len(x.A) != 1 || x.A[0].Op != "id" {
+			e.fail("head(loopvar)")
+		}
+		if v, ok := e.vars["head:"+x.A[0].S]; ok {
+			return v
+		}
+		e.fail("head(%s): only meaningful in a step-assert of the loop that carries %s", x.A[0].S, x.A[0].S)
 	case "next":
 		if len(x.A) != 1 || x.A[0].Op != "id" {
 			e.fail("next(loopvar)")
